@@ -31,7 +31,7 @@ pub open spec fn pruned_by(r: Rep, e: Ent, k: Slot) -> bool {
 /// the replica after offering `e` (what `put` does to the records of the namespace)
 pub open spec fn put_spec(r: Rep, e: Ent) -> Rep {
     if dominated_in(r, e) { r }
-    else { Map::new(|k: Slot| k == slot_of(e) || (r.contains_key(k) && !pruned_by(r, e, k)), |k: Slot| if k == slot_of(e) { e.val } else { r[k] }) }
+    else { Map::new(r.dom().filter(|k: Slot| !pruned_by(r, e, k)).insert(slot_of(e)), |k: Slot| if k == slot_of(e) { e.val } else { r[k] }) }
 }
 /// offering a sequence of entries one after the other
 pub open spec fn put_all(r: Rep, s: Seq<Ent>) -> Rep
